@@ -817,9 +817,31 @@ fn minimise(case: Case, kind: &str) -> (Case, Failure, usize) {
 fn replay(path: &str) -> i32 {
     let text = std::fs::read_to_string(path).unwrap_or_else(|e| simcore::harness_error(&format!("{path}: {e}")));
     let v: Value = serde_json::from_str(&text).unwrap_or_else(|e| simcore::harness_error(&format!("{path}: {e}")));
-    let case: Case = serde_json::from_value(v["case"].clone()).unwrap_or_else(|e| simcore::harness_error(&format!("{path}: {e}")));
     let property = v["expect"]["property"].as_str().unwrap_or("");
     let kind = v["expect"]["kind"].as_str().unwrap_or("");
+    if v["miri"].as_bool() == Some(true) {
+        // re-run the same workload under the same range of Miri seeds
+        let sim_dir = verif_root().join("sim");
+        let scenario = v["scenario"].as_str().unwrap_or("arena");
+        let wseed = v["seed"].as_u64().unwrap_or(0);
+        let mseeds = v["miri_seeds"].as_u64().unwrap_or(16);
+        let ok = std::process::Command::new("cargo")
+            .current_dir(&sim_dir)
+            .args(["+nightly", "miri", "run", "--offline", "--release", "-q", "-p", "sim_intern_miri", "--", "--scenario", scenario, "--seed", &wseed.to_string()])
+            .env("MIRIFLAGS", format!("-Zmiri-disable-isolation -Zmiri-tree-borrows -Zmiri-preemption-rate=0.1 -Zmiri-many-seeds=0..{mseeds}"))
+            .env("CARGO_NET_OFFLINE", "true")
+            .status()
+            .map(|s| s.success())
+            .unwrap_or(true);
+        return if ok {
+            println!("replay: {path}: Miri completes every seed without an error");
+            simcore::EXIT_OK
+        } else {
+            println!("VIOLATION property={property} replay={path}");
+            simcore::EXIT_VIOLATION
+        };
+    }
+    let case: Case = serde_json::from_value(v["case"].clone()).unwrap_or_else(|e| simcore::harness_error(&format!("{path}: {e}")));
     match child(&case, v["schedule"].as_str()) {
         Some(f) if f.kind == kind => {
             println!("replay: {}", f.msg);
@@ -902,6 +924,30 @@ fn run(args: &[String]) -> i32 {
         exit = simcore::EXIT_VIOLATION;
         reported += 1;
     }
+    // ---- Miri tier (weak memory, data races) ----
+    let mut miri_json = json!({"ran": false});
+    if std::env::var("VERIF_NO_MIRI").is_err() {
+        let (workloads, mseeds) = if tier == "thorough" { (48u64, 64u64) } else { (3u64, 16u64) };
+        let t0 = std::time::Instant::now();
+        let (done, scheds, failure) = miri_tier(scenario, seed, workloads, mseeds);
+        println!("  miri tier: {done} workloads x {mseeds} Miri seeds = {scheds} schedules, wall={:.1}s", t0.elapsed().as_secs_f64());
+        miri_json = json!({"ran": true, "workloads": done, "miri_seeds_per_workload": mseeds, "schedules": scheds,
+            "flags": "-Zmiri-disable-isolation -Zmiri-tree-borrows -Zmiri-preemption-rate=0.1 -Zmiri-many-seeds", "wall_s": t0.elapsed().as_secs_f64(),
+            "what": "unmodified intern crate (std atomics, parking_lot, once_cell) on OS threads under Miri's scheduler, data-race detector and weak-memory emulation"});
+        if let Some((wseed, excerpt)) = failure {
+            println!("  Miri reports a failure for workload seed {wseed:#x}:\n{excerpt}");
+            let dir = root.join("replays");
+            let _ = std::fs::create_dir_all(&dir);
+            let path = dir.join(format!("{property}-sim_intern-miri-{scenario}-{wseed:016x}.json"));
+            let v = json!({"engine": "sim_intern", "scenario": scenario, "property": property, "seed": wseed, "miri": true,
+                "miri_seeds": mseeds, "expect": {"property": property, "kind": "miri-failure"}, "detail": excerpt});
+            std::fs::write(&path, serde_json::to_string_pretty(&v).unwrap()).expect("write replay");
+            println!("VIOLATION property={property} replay={}", path.display());
+            exit = simcore::EXIT_VIOLATION;
+            reported += 1;
+        }
+    }
+
     let wall = start.elapsed().as_secs_f64();
     let schedules = out.counters.get("schedules").copied().unwrap_or(0);
     let mut extra = serde_json::Map::new();
@@ -914,6 +960,7 @@ fn run(args: &[String]) -> i32 {
             other.insert(k.clone(), json!(v));
         }
     }
+    extra.insert("miri_tier".into(), miri_json);
     extra.insert("schedules_explored".into(), json!(schedules));
     extra.insert("probes".into(), Value::Object(probes));
     extra.insert("counters".into(), Value::Object(other));
@@ -948,6 +995,39 @@ fn run(args: &[String]) -> i32 {
     ev.write(&root);
     println!("sim_intern property={property} cases={} schedules={schedules} distinct_nontrivial={} wall={wall:.1}s exit={exit}", out.runs_done, out.distinct_nontrivial);
     exit
+}
+
+/// Miri tier: the UNMODIFIED intern crate (std atomics, parking_lot, once_cell) on OS threads,
+/// interpreted by Miri, whose scheduler supplies the interleavings (`-Zmiri-many-seeds`) and
+/// whose data-race detector and weak-memory emulation see what shuttle cannot.
+/// Returns (workloads run, schedules run, first failure as (workload seed, output excerpt)).
+fn miri_tier(scenario: &str, base: u64, workloads: u64, miri_seeds: u64) -> (u64, u64, Option<(u64, String)>) {
+    let sim_dir = verif_root().join("sim");
+    let mut done = 0;
+    for i in 0..workloads {
+        let wseed = derive_seed(base ^ 0x3141_5926, i);
+        let out = std::process::Command::new("cargo")
+            .current_dir(&sim_dir)
+            .args(["+nightly", "miri", "run", "--offline", "--release", "-q", "-p", "sim_intern_miri", "--", "--scenario", scenario, "--seed", &wseed.to_string()])
+            .env("MIRIFLAGS", format!("-Zmiri-disable-isolation -Zmiri-tree-borrows -Zmiri-preemption-rate=0.1 -Zmiri-many-seeds=0..{miri_seeds}"))
+            .env("CARGO_NET_OFFLINE", "true")
+            .output();
+        match out {
+            Err(e) => simcore::harness_error(&format!("cannot run cargo miri: {e}")),
+            Ok(o) if o.status.success() => done += 1,
+            Ok(o) => {
+                let err = String::from_utf8_lossy(&o.stderr);
+                if err.contains("could not compile") || err.contains("error: no such command") {
+                    simcore::harness_error(&format!("Miri tier cannot be built: {}", err.lines().rev().take(6).collect::<Vec<_>>().join(" | ")));
+                }
+                let lines: Vec<&str> = err.lines().collect();
+                let pos = lines.iter().position(|l| l.contains("Undefined Behavior") || l.contains("panicked at") || l.starts_with("error")).unwrap_or(lines.len().saturating_sub(12));
+                let excerpt = lines[pos..(pos + 14).min(lines.len())].join("\n");
+                return (done, done * miri_seeds, Some((wseed, excerpt)));
+            }
+        }
+    }
+    (done, done * miri_seeds, None)
 }
 
 fn selftest(args: &[String]) -> i32 {
